@@ -462,7 +462,9 @@ static void on_event(struct bufferevent *bev, short what, void *arg) {
         if (W->kind == K_SOCK) CHECK(W->wire_recv[e.id] == W->wire_sent[p.id], "C17/eof-before-wire-data", "end %c: EOF after %llu of %llu wire bytes", 'A' + e.id, (unsigned long long)W->wire_recv[e.id], (unsigned long long)W->wire_sent[p.id]);
         else if (p.live) CHECK(all_out(p) <= rechunk_slack(p), KEY_PAIR_FINISH, "end %c: EOF reported while %llu byte(s) the peer wrote before it finished are still in the peer's output buffer", 'A' + e.id, (unsigned long long)all_out(p));
       }
-      if (!e.rd_done) e.total_at_eof = in_total(e);
+      // "nothing is read after EOF": the mark is taken at the first terminal report and moved to the first EOF — after a mere ERROR (e.g. a
+      // failed readv) the application may enable reading again and legitimately receive the rest of the stream before the EOF
+      if (!e.rd_done || ((what & BEV_EVENT_EOF) && e.n_eof_r == 1)) e.total_at_eof = in_total(e);
       e.rd_done = true; e.enabled &= ~EV_READ; e.resume_armed = false;
       if (what & BEV_EVENT_ERROR) e.clean_in = false;
     }
